@@ -92,6 +92,9 @@ class VecCtx:
         """reaching definitions of an expression that is a local name: [(value expr, def stmt)]"""
         e = _strip_norm(e)
         if isinstance(e, ast.Name) and e.id in self.sdefs:
+            x = _strip_norm(self.expand(e))
+            if isinstance(x, ast.Name) and x.id in self.asg and x.id not in self.fi.params and x.id not in self.sdefs:
+                return self.defs_of(x)  # a single-definition alias of a local with several definitions (one per branch)
             return [(self.expand(e), self.asg[e.id][0])]
         if isinstance(e, ast.Name) and e.id in self.asg and e.id not in self.fi.params:
             out = []
@@ -437,6 +440,29 @@ def _is_clamped(e: ast.AST) -> bool:
     return mm(e, "max", "min", -1, 1) or mm(e, "min", "max", 1, -1)
 
 
+def _range_safe(ctx, fi: FunctionInfo, arg: ast.AST, depth: int = 0) -> bool:
+    """the value is clamped into [-1, 1]: a max(-1, min(1, x)) form, a local all of whose definitions are, or the result
+    of a package function every return of which is (a `_cosine(u, v)` helper that clamps before it returns)"""
+    if _is_clamped(arg):
+        return True
+    if isinstance(arg, ast.Name) and arg.id not in fi.params:
+        defs = assigned_names(fi.node).get(arg.id, [])
+        return bool(defs) and all(isinstance(d, ast.Assign) and len(d.targets) == 1 and _range_safe(ctx, fi, d.value, depth) for d in defs)
+    if isinstance(arg, ast.Call) and depth < 3:
+        tg = ctx.types.call_targets.get((fi.qual, id(arg)), set())
+        if not tg:
+            return False
+        for q in tg:
+            h = ctx.types.fn_by_qual.get(q)
+            if h is None:
+                return False
+            rets = [r for r in walk_local(h.node) if isinstance(r, ast.Return)]
+            if not rets or not all(r.value is not None and _range_safe(ctx, h, r.value, depth + 1) for r in rets):
+                return False
+        return True
+    return False
+
+
 def check_acos(ctx, res, fi: FunctionInfo, rule: str) -> int:
     n = 0
     asg = assigned_names(fi.node)
@@ -477,11 +503,7 @@ def check_acos(ctx, res, fi: FunctionInfo, rule: str) -> int:
             continue
         n += 1
         arg = c.args[0]
-        if isinstance(arg, ast.Name) and arg.id in asg and arg.id not in fi.params:
-            defs = asg[arg.id]
-            ok = all(isinstance(d, ast.Assign) and _is_clamped(d.value) for d in defs)
-        else:
-            ok = _is_clamped(arg)
+        ok = _range_safe(ctx, fi, arg)
         if not ok:
             # range guards dominating the call: on every path to it both  x <= 1  and  x >= -1  have been established
             # (`if x > 1: return 0.0`, `if x < -1: return math.pi`)
